@@ -35,11 +35,12 @@ from ..sexp import Sym, json_sx, sx_json
 # a non-null list) are part of every "nulls"/"rand" value: a refusal there is a VIOLATION too.
 REGRESSION_STREAMS = ["kw_enum_default", "obj_enum_default", "list_obj_default",   # F9c, F9a, F9b: fixed
                       "coerced_default",                                          # F9d: fixed (e1f804e)
+                      "colliding_names",                                          # F18/F18b: fixed (bec4417, a4347c6)
                       "enum_positions", "falsy_defaults"]   # systematic positions / falsy values (main class)
 STREAM_CLASS = {
-    "colliding_names": "F18b-python-name-is-other-graphql-name",
+
 }
-F18 = "F18b-python-name-is-other-graphql-name"   # what is left of F18 after bec4417 (Model/Inputs.v names_ok_fields)
+F18 = "F18-duplicate-graphql-field-names"   # never open: names_ok_fields is only GraphQL-name uniqueness now (F18/F18b fixed)
 CANONICAL = ("min", "full", "nulls", "rand", "corpus")
 
 
